@@ -470,6 +470,7 @@ namespace
                        ma, mal);
                     auto  bad0 = hl().bad_size, oom0 = hl().oom;
                     auto  att0 = h->attempts;
+                    auto  own0 = h->own_bad_alloc;
                     void* p    = nullptr;
                     auto  cls  = classify<void>(
                         [&]() -> void* {
@@ -506,8 +507,12 @@ namespace
                             viol("C03", "C03/" + kind + "/bad-size-handler-not-called", "%s thrown without calling the bad_allocation_size handler", cls);
                         if (oom_family && hl().oom == oom0)
                             viol("C03", "C03/" + kind + "/oom-handler-not-called", "%s thrown without calling the out_of_memory handler", cls);
-                        if (cl == "std::bad_alloc")
+                        // (unless the instrumented upstream itself could not serve - blocks double with every growth and it stops at 2 GiB:
+                        //  its std::bad_alloc is passed through, rightly)
+                        if (cl == "std::bad_alloc" && h->own_bad_alloc == own0)
                             viol("C03", "C03/" + kind + "/plain-bad_alloc", "a library failure surfaced as plain std::bad_alloc, outside both families");
+                        if (cl == "std::bad_alloc")
+                            vf::count("upstream_itself_exhausted");
                     }
                     if (cl == "ok")
                         sh.add([&](const char* x, std::size_t n2) { return h->owns(x, n2); }, p, arr, count, size, align);
